@@ -40,6 +40,9 @@ inductive Wrapper where
 inductive Tool where
   | ok | reorder | garbageEmpty | garbageRagged | garbageMissing | garbageLength | garbageTree
   | garbageSwap   -- equal row lengths, right headers; row 0 has one symbol too many, row 1 one too few (totals agree)
+  | dupRecords    -- valid rows, but the record of input 0 is written twice (a dict-like reader keeps the last copy)
+  | garbageExtra  -- one record more than there were inputs
+  | garbageHeader -- the last record's header is not an input index
   | bigout        -- like `ok`, but first writes more than a pipe buffer to STDERR: blocks until the pipe is read
   | exit3      -- exits with code 3
   | sigkill    -- writes complete, valid output, then dies by a signal (return code -9)
@@ -304,6 +307,7 @@ def errLaunch : Tool → Err
 /-- The program ends with a failing exit status: `returncode != 0` (positive exit code *or* negative: killed by a signal). -/
 def failingExit (t : Tool) : Bool := t = .exit3 ∨ t = .sigkill
 def errEval : Err := .other "EvalFailure"
+def errOverflow : Err := .overflowError
 
 /-- Temp files created by `__init__` (NamedTemporaryFile(delete=False)). -/
 def initFiles : Wrapper → Nat
@@ -358,6 +362,9 @@ def toolRows (t : Tool) (n : Nat) : List (Nat × Nat) :=
   | .reorder => rows.drop 1 ++ rows.take 1      -- rotation (not an involution for n ≥ 3)
   | .garbageMissing => rows.take (n - 1)
   | .garbageEmpty => []
+  | .dupRecords => rows ++ rows.take 1
+  | .garbageExtra => rows ++ [(n, 0)]
+  | .garbageHeader => rows.take (n - 1) ++ [(n + 1, n - 1)]     -- a header outside `0..n-1` stands for "not an index"
   | _ => rows
 
 /-- `seq_dict[str(h)]`: first record with that header. -/
@@ -375,10 +382,20 @@ def findAll (out : List (Nat × Nat)) : List Nat → Option (List Nat)
     | some r, some rs => some (r :: rs)
     | _, _ => none
 
+/-- Keys of `OrderedDict(alignment_file)`: every header once, at the position of its first occurrence. -/
+def uniq : List Nat → List Nat
+  | [] => []
+  | x :: xs => x :: (uniq xs).filter (· ≠ x)
+
+/-- `seq_dict = OrderedDict(alignment_file)` collapses records with the same header (which copy survives does not matter
+for the row *identity* `find` returns; the harness compares contents against the copy written last).  More headers than
+inputs leave `None` rows (TypeError in `trace_from_strings`), a missing index is a KeyError. -/
 def parseOutput (out : List (Nat × Nat)) (ragged : Bool) (n : Nat) : Except Err (List Nat × List Nat) :=
   match findAll out (List.range n) with
   | none => .error errEval
-  | some rows => if ragged ∨ out.length ≠ n then .error errEval else .ok (rows, out.map Prod.fst)
+  | some rows =>
+    let keys := uniq (out.map Prod.fst)
+    if ragged ∨ keys.length ≠ n then .error errEval else .ok (rows, keys)
 
 /-- Does the wrapper's own `evaluate()` parse a guide tree written by the program?  (ClustalO only when no guide tree
 was supplied; MUSCLE 3 and MAFFT always; MUSCLE 5 never.) -/
@@ -406,7 +423,7 @@ def evaluate (s : St) : Except Err (Option (List Nat × List Nat)) :=
   | .base =>
     if failingExit s.tool then .error errSubprocess
     else if s.tool = .garbageEmpty ∨ s.tool = .garbageRagged ∨ s.tool = .garbageMissing ∨ s.tool = .garbageLength
-        ∨ s.tool = .garbageTree ∨ s.tool = .garbageSwap then .error errEval
+        ∨ s.tool = .garbageTree ∨ s.tool = .garbageSwap ∨ s.tool = .garbageExtra ∨ s.tool = .garbageHeader then .error errEval
     else .ok none
   | .localapp =>
     -- LocalApp.evaluate: `if exit_code != 0: raise SubprocessError`
@@ -426,6 +443,7 @@ def evaluate (s : St) : Except Err (Option (List Nat × List Nat)) :=
 /-- The `timeout` argument of `join`: `None`, the boundary value `0` / `0.0` ("do not wait"), or a positive number. -/
 inductive Timeout where
   | none | zero | pos
+  | inf      -- `float("inf")`: never expires for the generic poll loop; `Popen.communicate` refuses it (OverflowError)
   deriving DecidableEq, Repr
 
 /-- `cancel()` body (after its guard). -/
@@ -462,8 +480,12 @@ def joinLocal (s : St) (timeout : Bool) : St × Res :=
 TimeoutExpired even if the child has already exited (in FINISHED the pipes were drained by `is_finished()`, then it
 returns at once); otherwise 0 behaves like any other timeout. -/
 def joinLocalT (s : St) (t : Timeout) : St × Res :=
-  if t = .zero ∧ s.state = .running then (cancelBody s, .err errTimeout)
-  else joinLocal s (t ≠ .none)
+  if t = .inf ∧ s.state = .running then
+    -- `communicate(timeout=inf)` has to wait on the pipes: `select(inf)` raises OverflowError *before* anything is changed
+    -- (in FINISHED the pipes are drained and the child reaped: it returns at once)
+    (s, .err errOverflow)
+  else if t = .zero ∧ s.state = .running then (cancelBody s, .err errTimeout)
+  else joinLocal s (t = .zero ∨ t = .pos)
 
 /-- `Application.join(timeout)` body: `while self.get_app_state() != FINISHED: (timeout → cancel, raise) | sleep`. -/
 def joinBase (s : St) (timeout : Bool) : St × Res :=
@@ -601,7 +623,7 @@ def step (s : St) (c : Call) : St × Res :=
     match guardOf s.w "join" with
     | some g =>
       if passes g s.state then
-        if s.w = .base then joinBase s (t ≠ .none)    -- `timeout is not None and …`: 0 counts as a timeout
+        if s.w = .base then joinBase s (t = .zero ∨ t = .pos)   -- `timeout is not None and now - start > timeout`: 0 counts, inf never expires
         else joinLocalT s t
       else (s, .err .stateError)
     | none => (s, .noMethod)
@@ -626,8 +648,9 @@ def step (s : St) (c : Call) : St × Res :=
     (s, .ok "")
 
 /-- A freshly constructed wrapper. -/
-def init (w : Wrapper) (tool : Tool) (n : Nat) (seqtype : String) : St :=
-  { w := w, tool := tool, n := n, seqtype := seqtype, files := initFiles w }
+def init (w : Wrapper) (tool : Tool) (n : Nat) (seqtype : String) (withMatrix : Bool := false) : St :=
+  { w := w, tool := tool, n := n, seqtype := seqtype,
+    files := initFiles w + (if withMatrix ∧ w = .tantan then 1 else 0) }   -- TantanApp creates its matrix file only on demand
 
 /-- State after a history. -/
 def run (s : St) : List Call → St
